@@ -25,9 +25,12 @@ fn values() -> Vec<RV> {
         RV::Int(1),
         RV::Int(2),
         RV::Float(1.5),
-        RV::Float(2.5),
+        RV::Float(1.0),
+        RV::Float(0.0),
+        RV::Float(-0.0),
+        RV::Float(f64::NAN),
         RV::Str("s".into()),
-        RV::Str("t".into()),
+        RV::Str("a".into()),
         RV::Bool(true),
         RV::Bool(false),
         RV::Empty,
@@ -461,7 +464,7 @@ fn in_box(m: &RCtx) -> bool {
     fn ok(v: &RV) -> bool {
         match v {
             RV::Int(i) => i.abs() <= 8,
-            RV::Float(f) => [1.5, 2.5, 3.0, 4.0, 0.0, 1.0, -1.0, 0.5].iter().any(|x| x == f),
+            RV::Float(f) => f.is_nan() || [1.5, 2.5, 3.0, 4.0, 0.0, 1.0, -1.0, 0.5, 2.0, -0.5, 0.25].iter().any(|x| x == f),
             RV::Str(s) => s.len() <= 3,
             RV::Tuple(t) => t.iter().all(ok),
             _ => true,
@@ -803,7 +806,7 @@ pub fn run(cfg: &Cfg) -> Report {
     Report {
         property: ID,
         level: "model_checking",
-        rule: format!("explicit-state breadth-first search (stateright) from the empty context; a state is the real HashMapContext paired with the abstract map model, merged by (sorted observation of the real context, model); every transition calls the real API on a clone (set_value; `n = lit`; `n op= lit` for the 8 op-assign operators x one right-hand side per type; `n = m`; `n = unbound`; clear_variables / clear_functions / clear; set_function; builtin switch; clone-and-continue) over names {{a, b}} (+ never-bound c), 12 values (two per scalar type, tuples of length 0/1/2, Empty); after every transition the return value and the complete observation (get_value of every name, both listings, call_function of every function name, builtin switch, reads through eval_with_context) are compared with the model, and the parent state must be unchanged. Closed sub-machine to closure; with op-assign inside a magnitude box (|int| <= 8, strings <= 3 bytes, closed float set): transitions leaving the box are executed and checked but not expanded; plus all unmerged histories of depth {depth} over the full action alphabet; plus scaling families: contexts with n variables of cycling types (set, listed, looked up, retyped, cloned, cleared) and n rounds of op-assigns on one variable, n in 1..20 and up to 129 / 1..40 and up to 400. Non-trivial/distinct = unique abstract states"),
+        rule: format!("explicit-state breadth-first search (stateright) from the empty context; a state is the real HashMapContext paired with the abstract map model, merged by (sorted observation of the real context, model); every transition calls the real API on a clone (set_value; `n = lit`; `n op= lit` for the 8 op-assign operators x one right-hand side per type; `n = m`; `n = unbound`; clear_variables / clear_functions / clear; set_function; builtin switch; clone-and-continue) over names {{a, b}} (+ never-bound c), 15 values (ints 1, 2; floats 1.5, 1.0, 0.0, -0.0, NaN; strings `s` and `a` (the latter spells a variable name); two booleans; tuples of length 0/1/2; Empty); after every transition the return value and the complete observation (get_value of every name, both listings, call_function of every function name, builtin switch, reads through eval_with_context) are compared with the model, and the parent state must be unchanged. Closed sub-machine to closure; with op-assign inside a magnitude box (|int| <= 8, strings <= 3 bytes, closed float set): transitions leaving the box are executed and checked but not expanded; plus all unmerged histories of depth {depth} over the full action alphabet; plus scaling families: contexts with n variables of cycling types (set, listed, looked up, retyped, cloned, cleared) and n rounds of op-assigns on one variable, n in 1..20 and up to 129 / 1..40 and up to 400. Non-trivial/distinct = unique abstract states"),
         nontrivial_set: "counter:nontrivial-distinct",
         exhaustive: true,
         bound_completed: format!("closed machine: closure; boxed machine: {}; unmerged histories: depth {}", match cfg.tier { Tier::Quick => "depth 3", Tier::Thorough => "fixpoint of the box" }, depth),
